@@ -178,7 +178,7 @@ Proof.
   intro Hn. unfold process_name_with. rewrite (final_not_all_us _ _ Hn).
   assert (H : forall x, filter is_alnum (if f_trim fl then drop_while is_us x else x) = filter is_alnum x).
   { intro x. destruct (f_trim fl); [apply filter_alnum_lstrip | reflexivity]. }
-  rewrite H, !filter_alnum_suffix.
+  rewrite !filter_alnum_suffix, H.
   destruct (f_snake fl); [| reflexivity].
   rewrite snake_alnum_preserved. apply map_lower_idem.
 Qed.
@@ -346,60 +346,83 @@ Lemma gql_not_all_us_start n : gql_name n = true -> starts_us n = false ->
 Proof. destruct n as [|c r]; [discriminate|]. simpl. intros _ ->. reflexivity. Qed.
 
 (* the result of process_name on the guarded domain, in closed form *)
-Definition p3_of (fl : pflags) (n : chars) : chars :=
-  step3 fl (step2 (if f_snake fl then snake n else n)).
+Definition trimmed (fl : pflags) (n : chars) : chars :=
+  let p1 := if f_snake fl then snake n else n in
+  if f_trim fl then drop_while is_us p1 else p1.
+
+Definition p3_of (fl : pflags) (n : chars) : chars := step3 fl (step2 (trimmed fl n)).
 
 Lemma process_name_unfold fl n :
   process_name fl n =
-  let p4 := if f_trim fl then drop_while is_us (p3_of fl n) else p3_of fl n in
-  match n, p4 with
-  | _ :: _, [] => if all_us n then fallback_name else p4
-  | _, _ => p4
+  match n, p3_of fl n with
+  | _ :: _, [] => if all_us n then fallback_name else p3_of fl n
+  | _, _ => p3_of fl n
   end.
-Proof. reflexivity. Qed.
+Proof.
+  unfold process_name, process_name_with, p3_of, trimmed, step3, step2.
+  destruct n; reflexivity.
+Qed.
+
+Lemma trimmed_all_us fl n : all_us n = true ->
+  trimmed fl n = if f_snake fl || f_trim fl then [] else n.
+Proof.
+  intro Hu. unfold trimmed. destruct (f_snake fl); simpl.
+  - unfold snake. rewrite (all_us_snake_go _ Hu). destruct (f_trim fl); reflexivity.
+  - destruct (f_trim fl); [apply lstrip_all_us, Hu | reflexivity].
+Qed.
 
 Lemma process_name_all_us fl n : gql_name n = true -> all_us n = true ->
   process_name fl n = if f_snake fl || f_trim fl then fallback_name else n.
 Proof.
-  intros Hg Hu. rewrite process_name_unfold. unfold p3_of.
-  destruct n as [|c0 r0]; [discriminate|].
-  destruct (f_snake fl).
-  - unfold snake. rewrite (all_us_snake_go _ Hu). rewrite (step23_all_us fl [] eq_refl).
-    cbv zeta. rewrite Hu. destruct (f_trim fl); reflexivity.
-  - rewrite (step23_all_us fl _ Hu). simpl orb. destruct (f_trim fl).
-    + rewrite (lstrip_all_us _ Hu). cbv zeta. rewrite Hu. reflexivity.
-    + reflexivity.
+  intros Hg Hu. rewrite process_name_unfold.
+  assert (Hp : p3_of fl n = if f_snake fl || f_trim fl then [] else n).
+  { unfold p3_of. rewrite (trimmed_all_us fl n Hu).
+    destruct (f_snake fl || f_trim fl); [apply (step23_all_us fl [] eq_refl) | apply (step23_all_us fl _ Hu)]. }
+  destruct n as [|c0 r0]; [discriminate|]. rewrite !Hp.
+  destruct (f_snake fl || f_trim fl); [rewrite Hu|]; reflexivity.
+Qed.
+
+Lemma lstrip_identifier n : forallb is_name_char n = true -> all_us n = false ->
+  first_alnum_is_digit n = false ->
+  py_identifier (drop_while is_us n) = true /\ starts_us (drop_while is_us n) = false.
+Proof.
+  induction n as [|c r IH]; intros Hc Hu Hd; [discriminate|].
+  simpl in Hc. apply andb_true_iff in Hc as [Hc Hr]. simpl.
+  destruct (is_us c) eqn:Hus.
+  - simpl in Hu. rewrite Hus in Hu. simpl in Hu. simpl in Hd. rewrite (us_not_alnum c Hus) in Hd.
+    apply IH; assumption.
+  - destruct (name_char_cases c Hc) as [Ha | Hx]; [| congruence].
+    simpl in Hd. rewrite Ha in Hd. unfold py_identifier, gql_name. simpl.
+    rewrite Hd, Hus. simpl. unfold is_name_char at 1. rewrite Ha. simpl. rewrite Hr. split; reflexivity.
+Qed.
+
+Lemma trimmed_identifier fl n : gql_name n = true -> g_c18 fl n = true -> all_us n = false ->
+  py_identifier (trimmed fl n) = true /\
+  (f_snake fl || f_trim fl = true -> starts_us (trimmed fl n) = false) /\
+  all_us (trimmed fl n) = false.
+Proof.
+  intros Hg Hgd Hu. unfold g_c18 in Hgd. unfold trimmed.
+  destruct (gql_name_chars n Hg) as [Hc Hne].
+  destruct (f_snake fl) eqn:Hs; simpl in *.
+  - apply negb_true_iff in Hgd. destruct (snake_identifier n Hg Hu Hgd) as [Hid Hst].
+    assert (Hau : all_us (snake n) = false).
+    { destruct (snake n) as [|c r]; [discriminate|]. simpl in *. rewrite Hst. reflexivity. }
+    destruct (f_trim fl); [rewrite (lstrip_noop _ Hst)|]; auto.
+  - destruct (f_trim fl) eqn:Ht; simpl in *.
+    + apply negb_true_iff in Hgd. destruct (lstrip_identifier n Hc Hu Hgd) as [Hid Hst].
+      repeat split; auto.
+      destruct (drop_while is_us n) as [|c r]; [discriminate|]. simpl in *. rewrite Hst. reflexivity.
+    + repeat split; auto. intro; discriminate.
 Qed.
 
 Lemma process_name_guarded fl n : gql_name n = true -> g_c18 fl n = true -> all_us n = false ->
   process_name fl n = p3_of fl n /\ py_identifier (p3_of fl n) = true.
 Proof.
-  intros Hg Hgd Hu. rewrite process_name_unfold. unfold g_c18 in Hgd.
-  assert (Hfin : forall p4, p4 <> [] ->
-            match n, p4 with _ :: _, [] => if all_us n then fallback_name else p4 | _, _ => p4 end = p4).
-  { intros p4 Hp. destruct n, p4; try reflexivity. contradiction. }
-  unfold p3_of in *. destruct (f_snake fl).
-  - apply negb_true_iff in Hgd.
-    destruct (snake_identifier n Hg Hu Hgd) as [Hid Hst].
-    assert (Hne : snake n <> []) by (intro E; rewrite E in Hid; discriminate).
-    assert (Hid3 := step23_identifier fl _ Hid).
-    assert (Hst3 := starts_us_step23 fl _ Hst Hne).
-    assert (Hne3 : step3 fl (step2 (snake n)) <> []) by (intro E; rewrite E in Hid3; discriminate).
-    cbv zeta.
-    assert (Hp4 : (if f_trim fl then drop_while is_us (step3 fl (step2 (snake n)))
-                   else step3 fl (step2 (snake n))) = step3 fl (step2 (snake n))).
-    { destruct (f_trim fl); [apply lstrip_noop, Hst3 | reflexivity]. }
-    rewrite Hp4. split; [apply Hfin; exact Hne3 | assumption].
-  - assert (Hid3 := step23_identifier fl _ Hg).
-    assert (Hne3 : step3 fl (step2 n) <> []) by (intro E; rewrite E in Hid3; discriminate).
-    cbv zeta.
-    assert (Hp4 : (if f_trim fl then drop_while is_us (step3 fl (step2 n))
-                   else step3 fl (step2 n)) = step3 fl (step2 n)).
-    { destruct (f_trim fl); [| reflexivity].
-      rewrite Hu in Hgd. rewrite orb_false_r in Hgd. apply negb_true_iff in Hgd.
-      assert (Hne : n <> []) by (intro E; rewrite E in Hg; discriminate).
-      apply lstrip_noop, (starts_us_step23 fl _ Hgd Hne). }
-    rewrite Hp4. split; [apply Hfin; exact Hne3 | assumption].
+  intros Hg Hgd Hu. rewrite process_name_unfold.
+  destruct (trimmed_identifier fl n Hg Hgd Hu) as [Hid _].
+  assert (Hid3 := step23_identifier fl _ Hid). fold (p3_of fl n) in Hid3.
+  split; [| exact Hid3].
+  destruct n; [reflexivity|]. destruct (p3_of fl (a :: n)); [discriminate | reflexivity].
 Qed.
 
 Theorem process_valid_identifier fl n : gql_name n = true -> g_c18 fl n = true ->
@@ -410,25 +433,26 @@ Proof.
   - destruct (process_name_guarded fl n Hg Hgd Hu) as [-> H]. exact H.
 Qed.
 
-Theorem process_not_keyword fl n : gql_name n = true -> g_c18 fl n = true ->
-  iskeyword (process_name fl n) = false.
+(* not a keyword / not reserved: UNGUARDED after the fix (the suffixing is the last step) *)
+Lemma process_name_cases fl n : gql_name n = true ->
+  process_name fl n = p3_of fl n \/ process_name fl n = fallback_name.
 Proof.
-  intros Hg Hgd. destruct (all_us n) eqn:Hu.
-  - rewrite (process_name_all_us fl n Hg Hu). destruct (f_snake fl || f_trim fl); [reflexivity|].
-    destruct (iskeyword n) eqn:Hk; [| reflexivity]. apply keyword_not_all_us in Hk. congruence.
-  - destruct (process_name_guarded fl n Hg Hgd Hu) as [-> _]. unfold p3_of.
-    apply step3_not_keyword, step2_not_keyword.
+  intro Hg. rewrite process_name_unfold. destruct n; [discriminate|].
+  destruct (p3_of fl (a :: n)); [| left; reflexivity].
+  destruct (all_us (a :: n)); [right | left]; reflexivity.
 Qed.
 
-Theorem process_not_reserved fl n : f_reserved fl = true -> gql_name n = true -> g_c18 fl n = true ->
+Theorem process_not_keyword fl n : gql_name n = true -> iskeyword (process_name fl n) = false.
+Proof.
+  intro Hg. destruct (process_name_cases fl n Hg) as [-> | ->]; [| reflexivity].
+  unfold p3_of. apply step3_not_keyword, step2_not_keyword.
+Qed.
+
+Theorem process_not_reserved fl n : f_reserved fl = true -> gql_name n = true ->
   mem_chars (process_name fl n) pydantic_reserved = false.
 Proof.
-  intros Hr Hg Hgd. destruct (all_us n) eqn:Hu.
-  - rewrite (process_name_all_us fl n Hg Hu). destruct (f_snake fl || f_trim fl); [reflexivity|].
-    destruct (mem_chars n pydantic_reserved) eqn:Hk; [| reflexivity].
-    apply reserved_not_all_us in Hk. congruence.
-  - destruct (process_name_guarded fl n Hg Hgd Hu) as [-> _]. unfold p3_of.
-    apply step3_not_reserved, Hr.
+  intros Hr Hg. destruct (process_name_cases fl n Hg) as [-> | ->]; [| reflexivity].
+  unfold p3_of. apply step3_not_reserved, Hr.
 Qed.
 
 Theorem field_wire_name fl n : wire_name (field_names fl n) = n.
@@ -472,34 +496,70 @@ Proof.
   destruct (step23_head fl (c :: r) c r eq_refl) as [r' ->]. reflexivity.
 Qed.
 
+Lemma step23_fixpoint fl q : iskeyword q = false ->
+  (f_reserved fl = true -> mem_chars q pydantic_reserved = false) -> step3 fl (step2 q) = q.
+Proof.
+  intros Hk Hr. unfold step2. rewrite Hk. simpl suffix_if. unfold step3.
+  destruct (f_reserved fl); [rewrite (Hr eq_refl) |]; reflexivity.
+Qed.
+
 Theorem process_idempotent fl n : gql_name n = true -> g_c18 fl n = true -> all_us n = false ->
   process_name fl (process_name fl n) = process_name fl n.
 Proof.
   intros Hg Hgd Hu.
   destruct (process_name_guarded fl n Hg Hgd Hu) as [Hq Hid]. rewrite Hq.
-  assert (Hne : n <> []) by (intro E; rewrite E in Hg; discriminate).
-  destruct (f_snake fl) eqn:Hsn.
-  - assert (Hstart : starts_us (p3_of fl n) = false).
-    { unfold p3_of, g_c18 in *. rewrite Hsn in *.
-      apply negb_true_iff in Hgd. destruct (snake_identifier n Hg Hu Hgd) as [Hid1 Hst].
-      apply starts_us_step23; [exact Hst | intro E; rewrite E in Hid1; discriminate]. }
-    destruct (identifier_first_alnum _ Hid Hstart) as [Hfd Hau].
-    assert (Hg2 : g_c18 fl (p3_of fl n) = true).
-    { unfold g_c18. rewrite Hsn, Hfd. reflexivity. }
-    destruct (process_name_guarded fl _ Hid Hg2 Hau) as [Hq2 _]. rewrite Hq2.
-    unfold p3_of at 1. unfold p3_of. rewrite Hsn.
-    assert (E : snake (step3 fl (step2 (snake n))) = snake n) by (unfold step3, step2; rewrite !snake_suffix_if; apply snake_idempotent). rewrite E. reflexivity.
-  - assert (Hau : all_us (p3_of fl n) = false).
-    { unfold p3_of. rewrite Hsn. unfold step3, step2. apply all_us_suffix_if, all_us_suffix_if, Hu. }
-    assert (Hg2 : g_c18 fl (p3_of fl n) = true).
-    { unfold g_c18 in *. rewrite Hsn in *. destruct (f_trim fl); [| reflexivity].
-      unfold p3_of. rewrite Hsn. rewrite (starts_us_step23_eq fl n Hne).
-      rewrite Hu, orb_false_r in Hgd. rewrite Hgd. reflexivity. }
-    destruct (process_name_guarded fl _ Hid Hg2 Hau) as [Hq2 _]. rewrite Hq2.
-    unfold p3_of at 1. unfold p3_of. rewrite Hsn.
-    set (q := step3 fl (step2 n)).
-    assert (Hk : iskeyword q = false) by (apply step3_not_keyword, step2_not_keyword).
-    unfold step2 at 1. rewrite Hk. simpl suffix_if. unfold step3 at 1.
-    destruct (f_reserved fl) eqn:Hr; [| reflexivity].
-    unfold q. rewrite (step3_not_reserved fl (step2 n) Hr). reflexivity.
+  destruct (trimmed_identifier fl n Hg Hgd Hu) as [Hidt [Hst Haut]].
+  assert (Hnet : trimmed fl n <> []) by (intro E; rewrite E in Hidt; discriminate).
+  set (q := p3_of fl n) in *.
+  assert (Hstq : starts_us q = starts_us (trimmed fl n)) by (apply starts_us_step23_eq, Hnet).
+  assert (Hauq : all_us q = false).
+  { unfold q, p3_of, step3, step2. apply all_us_suffix_if, all_us_suffix_if, Haut. }
+  assert (Hkq : iskeyword q = false) by (apply step3_not_keyword, step2_not_keyword).
+  assert (Hrq : f_reserved fl = true -> mem_chars q pydantic_reserved = false)
+    by (intro Hr; apply step3_not_reserved, Hr).
+  (* the trimmed form of q is q's own un-suffixed core, so the suffixing steps reproduce q *)
+  assert (Hg2 : g_c18 fl q = true).
+  { unfold g_c18. destruct (f_snake fl || f_trim fl) eqn:E; [| reflexivity].
+    rewrite (Hst eq_refl) in Hstq. destruct (identifier_first_alnum q Hid Hstq) as [-> _]. reflexivity. }
+  destruct (process_name_guarded fl q Hid Hg2 Hauq) as [Hq2 _]. rewrite Hq2.
+  unfold p3_of at 1.
+  destruct (f_snake fl) eqn:Hs.
+  - (* snake: the core of q is snake n again *)
+    assert (Ht : trimmed fl q = trimmed fl n).
+    { unfold trimmed. rewrite Hs. unfold q, p3_of, step3, step2.
+      rewrite !snake_suffix_if. unfold trimmed. rewrite Hs.
+      assert (Hsn : snake (if f_trim fl then drop_while is_us (snake n) else snake n) = snake n).
+      { unfold g_c18 in Hgd. rewrite Hs in Hgd. simpl in Hgd. apply negb_true_iff in Hgd.
+        destruct (snake_identifier n Hg Hu Hgd) as [_ Hsst].
+        destruct (f_trim fl); [rewrite (lstrip_noop _ Hsst)|]; apply snake_idempotent. }
+      rewrite Hsn. reflexivity. }
+    rewrite Ht. reflexivity.
+  - (* no snake: q is already a fixed point of trim, keyword and reserved steps *)
+    assert (Ht : trimmed fl q = q).
+    { unfold trimmed. rewrite Hs. destruct (f_trim fl) eqn:Htr; [| reflexivity].
+      apply lstrip_noop. rewrite Hstq. apply Hst. reflexivity. }
+    rewrite Ht. apply step23_fixpoint; assumption.
 Qed.
+
+(* ---------- enum member names ---------- *)
+
+Lemma app_us_inj (a b : chars) : a ++ ["_"%char] = b ++ ["_"%char] -> a = b.
+Proof. apply app_inv_tail. Qed.
+
+(* two values of one enum get the same member name only in the class/class_ shape *)
+Theorem enum_member_collision a b : enum_member a = enum_member b -> a <> b ->
+  (iskeyword a = true /\ b = a ++ ["_"%char]) \/ (iskeyword b = true /\ a = b ++ ["_"%char]).
+Proof.
+  unfold enum_member, suffix_if. intros H Hne.
+  destruct (iskeyword a) eqn:Ka, (iskeyword b) eqn:Kb.
+  - apply app_us_inj in H. contradiction.
+  - left. split; [reflexivity | symmetry; exact H].
+  - right. split; [reflexivity | exact H].
+  - contradiction.
+Qed.
+
+Theorem enum_member_not_keyword v : iskeyword (enum_member v) = false.
+Proof. apply step2_not_keyword. Qed.
+
+Theorem enum_member_keeps_value v : filter is_alnum (enum_member v) = filter is_alnum v.
+Proof. apply filter_alnum_suffix. Qed.
